@@ -51,6 +51,7 @@ def case_strategy(draw, tier="quick"):
     # build the grouped frame expression *before* the grouper expression (the frame batch then
     # reaches the join of frame and grouper first)
     expr["late_grouper"] = bool(group in ("series", "mod2") and draw(st.booleans()))
+    expr["decoy_selection"] = bool(group) and draw(st.booleans())
     if expr["agg"] == "value_counts":
         expr["base"] = draw(st.sampled_from(["y", "g", "x"]))
         expr["arith"] = None
@@ -76,8 +77,12 @@ def apply_expr(df, expr, streaming):
             gb = f.groupby(f.g)
         else:
             gb = f.groupby(f.g % 2)
-        gb = gb[sel]
-        return getattr(gb, expr["agg"])(**kw)
+        picked = gb[sel]
+        if expr.get("decoy_selection"):
+            # another selection taken from the same GroupBy object must not disturb this one
+            other = "y" if sel == "x" else "x"
+            _decoy = gb[other]   # noqa: F841
+        return getattr(picked, expr["agg"])(**kw)
     if expr["base"] == "xy":
         sel = f[["x", "y"]]
     else:
